@@ -590,6 +590,9 @@ class Interp:
     def getattr(self, v, attr, node=None):
         if isinstance(v, ModuleRef):
             if v.mod is not None:
+                pre = self.module_scope(v.mod).vars.get(attr)
+                if pre is not None:
+                    return pre
                 r = self.repo.resolve_module_name(v.mod, attr)
                 if r.kind == "unknown":
                     sub = self.repo.modules.get(f"{v.mod.name}.{attr}")
@@ -606,6 +609,9 @@ class Interp:
                     want = "Group" if attr == "groups" else "Variable"
                     return DictS(OrderedDict((k, x) for k, x in data.items.items() if isinstance(x, Obj) and x.cls == want))
             if v.cls == "Group" and attr == "name":
+                p_ = v.fields.get("path")
+                if isinstance(p_, Const) and isinstance(p_.v, str):
+                    return Const(p_.v.rstrip("/").rsplit("/", 1)[-1] if p_.v.strip("/") else "")
                 return Top("group name")
             return Fn("method", recv=v, name=attr)
         if isinstance(v, Const) and not isinstance(v.v, (str, bytes, int, float, bool, type(None), tuple, list, dict)) and hasattr(v.v, attr) and not callable(getattr(v.v, attr)):
@@ -1065,6 +1071,8 @@ class Interp:
         k = f.kind
         if k == "const":
             return f.value
+        if k == "py":
+            return f.impl(self, args, kwargs)
         if k == "partial":
             a2 = list(f.args) + list(args)
             kw = OrderedDict(f.kwargs)
